@@ -29,7 +29,7 @@ man = {
     "hooks": {
         "guard": "sl_crypto_verif",
         "enable": "RUSTFLAGS='--cfg sl_crypto_verif' (set in /verif/harness/.cargo/config.toml; the harness crate has path dependencies on /repo/crates/*)",
-        "baseline_off_cmd": "cd /repo && cargo test --workspace --no-fail-fast --offline",
+        "baseline_off_cmd": "cd /repo && cargo nextest run --workspace --no-fail-fast --offline  (fallback: cargo test --workspace --no-fail-fast --offline --lib --tests; the README doctests of sl-verifiable-enc do not compile on the pinned tree either and are not part of the 36-test baseline)",
         "source_commits": repo_commits,
         "add_only": True,
     },
